@@ -33,6 +33,7 @@ pub fn oracle(tier: &str, seed: u64) -> (u64, Vec<Finding>) {
         let d = pole_dist(x);
         if d < 1e-3 { return; }
         *tried += 1;
+        crumb(&format!("gamma x={:e}", x));
         let got = gamma(x);
         // reflection: the relative condition number of Gamma near a pole grows like |x|/d; the property scales by proximity
         let tol = 1e-13 * if x < 0.5 { (1.0f64).max(x.abs() / d) } else { 1.0 };
@@ -63,6 +64,7 @@ pub fn oracle(tier: &str, seed: u64) -> (u64, Vec<Finding>) {
         let want = (reference::lgamma(a) + reference::lgamma(b) - reference::lgamma(a + b)).exp();
         let want2 = reference::tgamma(a) * reference::tgamma(b) / reference::tgamma(a + b);
         let want = if want2.is_finite() && want2 > 0.0 { want2 } else { want };
+        crumb(&format!("beta a={:e} b={:e}", a, b));
         let got = beta(a, b);
         let err = ((got - want) / want).abs();
         if !(err <= 1e-12) { fail(if got.is_finite() && got != 0.0 { "beta:inaccurate" } else { "beta:degenerate" }, err, format!("beta({:e},{:e}) = {:e}, Gamma(a)Gamma(b)/Gamma(a+b) = {:e}", a, b, got, want), format!("a={:e} b={:e}", a, b)); }
@@ -74,24 +76,28 @@ pub fn oracle(tier: &str, seed: u64) -> (u64, Vec<Finding>) {
     let mut h = 0.0f64; let mut hc = 0.0f64; // Kahan harmonic
     let nmax = if thorough { 10000 } else { 2000 };
     for n in 1..=nmax { tried += 1;
+        crumb(&format!("digamma n={}", n));
         let want = h - EULER; let got = digamma(n as f64);
         let err = (got - want).abs() / want.abs().max(1.0);
         if !(err <= 1e-10) { fail("digamma:integers", err, format!("digamma({}) = {:e}, H_(n-1) - gamma = {:e}", n, got, want), format!("n={}", n)); }
         let y = 1.0 / n as f64 - hc; let t = h + y; hc = (t - h) - y; h = t; }
     for _ in 0..(if thorough { 100000 } else { 10000 }) {
         let x = (r.uniform((1e-3f64).ln(), (1e6f64).ln())).exp(); tried += 1;
+        crumb(&format!("digamma x={:e} and x+1", x));
         let (a, b) = (digamma(x + 1.0), digamma(x) + 1.0 / x);
         let err = (a - b).abs() / a.abs().max(1.0).max(1.0 / x);
         if !(err <= 1e-10) { fail("digamma:recurrence", err, format!("digamma(x+1) = {:e}, digamma(x)+1/x = {:e}", a, b), format!("x={:e}", x)); }
         // independent reference: numerical derivative of lgamma is too rough; use the series at x+20 with recurrence in double-double-free form
         let mut s = 0.0; let mut y = x; while y < 30.0 { s += 1.0 / y; y += 1.0; }
         let y2 = y * y; let asym = reference_ln(y) - 0.5 / y - 1.0 / (12.0 * y2) * (1.0 - 1.0 / (10.0 * y2) * (1.0 - 10.0 / (21.0 * y2) * (1.0 - 21.0 / (20.0 * y2))));
+        crumb(&format!("digamma x={:e}", x));
         let want = asym - s; let got = digamma(x);
         let err = (got - want).abs() / want.abs().max(1.0);
         if !(err <= 1e-10) { fail("digamma:inaccurate", err, format!("digamma({:e}) = {:e}, reference {:e}", x, got, want), format!("x={:e}", x)); }
     }
     // ---- erf: odd, |erf| <= 1, within 1.5e-7 of the true erf
     let mut chk_erf = |x: f64, tried: &mut u64| { *tried += 1;
+        crumb(&format!("erf x={:e}", x));
         let got = erf(x); let want = reference::erf(x);
         if !(got.abs() <= 1.0) { fail("erf:exceeds-1", got.abs(), format!("|erf({:e})| = {:e} > 1", x, got.abs()), format!("x={:e}", x)); }
         let err = (got - want).abs();
